@@ -500,6 +500,9 @@ func (s *scope) lookupName(name unistring.String) (binding *binding, noDynamics 
 			}
 			curScope.argsNeeded = true
 			binding, _ = curScope.bindName(name)
+			if toStash && !binding.inStash {
+				binding.moveToStash()
+			}
 			return
 		}
 		if curScope.isFunction() {
